@@ -243,7 +243,7 @@ fn python_oracle(dict: &Dict, texts: &[&str], queries: &[&str]) -> Result<Value,
         list.lookup(q, InfoSubset::all()).map_err(|e| e.to_string())?;
         lookups.insert(q.to_string(), json!(toks_of(&list).iter().map(tok_json).collect::<Vec<_>>()));
     }
-    Ok(json!({"texts": texts, "queries": queries, "analyses": analyses, "lookups": lookups}))
+    Ok(json!({"texts": texts[..4.min(texts.len())], "extra_texts": texts[4.min(texts.len())..], "queries": queries, "analyses": analyses, "lookups": lookups}))
 }
 
 pub fn setup() -> i32 {
@@ -388,7 +388,12 @@ pub fn main(tier: Tier, replay: Option<String>) -> i32 {
     };
     let texts = ["東京都に行く", "1,000円ab㍿", "𠮷野東京府", ""];
     let queries = ["東京", "すだち"];
-    let oracle = match python_oracle(&dict, &texts, &queries) {
+    // texts analysed once per tokenizer configuration (not part of the sequence alphabet): inputs
+    // whose code-point and byte offsets differ in every way normalisation can make them differ
+    let extra = ["ＡＢＣ　１２３", "Ｓｕｄａｃｈｉ", "…", "㍿㍿", "e\u{301}京都", "👩\u{200d}💻rust", "ｶﾞｷﾞ東京", "１２３", "ＡＢ京都", "\u{fdfa}", "𠮷𠮷𠮷a", "東京都（とうきょうと）に", "あーーー", "A B\tC"];
+    let mut all_texts: Vec<&str> = texts.to_vec();
+    all_texts.extend(extra.iter());
+    let oracle = match python_oracle(&dict, &all_texts, &queries) {
         Ok(o) => o,
         Err(e) => {
             eprintln!("machinery failure: oracle: {}", e);
